@@ -378,6 +378,17 @@ class Interp:
                 return BoolV(bool(c))
         return v
 
+    def resolve_deep(self, state, v):
+        if isinstance(v, (IntV, BoolV)):
+            return self.resolve(state, v)
+        if isinstance(v, TupleV):
+            items = [self.resolve_deep(state, x) for x in v.items]
+            return v if all(a is b for a, b in zip(items, v.items)) else TupleV(items)
+        if isinstance(v, VecV) and v.elems is not None:
+            el = [self.resolve_deep(state, x) for x in v.elems]
+            return v if all(a is b for a, b in zip(el, v.elems)) else VecV(el, elem_ty=v.elem_ty)
+        return v
+
     def refine(self, state, b, truth):
         """narrow `state` assuming BoolV b == truth; returns False if that is impossible"""
         if b.val is not None:
@@ -532,7 +543,14 @@ class Interp:
                 if va is vb:
                     out[l] = va
                     continue
-                j = self.vjoin(va, vb, gj, cd)
+                if gj is not None:
+                    # compare the two sides under their own branch facts (values are only re-resolved when read)
+                    va_r, vb_r = self.resolve_deep(a, va), self.resolve_deep(b, vb)
+                    j = self.vjoin(va_r, vb_r, gj, cd)
+                    if j is va_r:
+                        j = va
+                else:
+                    j = self.vjoin(va, vb, gj, cd)
                 if j is not va and not (_same_modulo_deps(j, va)):
                     changed = True
                     j = _assign_sids(j)
@@ -546,7 +564,13 @@ class Interp:
                 if va is vb:
                     s.heap[c] = va
                 else:
-                    j = self.vjoin(va, vb, gj, cd)
+                    if gj is not None:
+                        va_r, vb_r = self.resolve_deep(a, va), self.resolve_deep(b, vb)
+                        j = self.vjoin(va_r, vb_r, gj, cd)
+                        if j is va_r:
+                            j = va
+                    else:
+                        j = self.vjoin(va, vb, gj, cd)
                     if j is not va and not (_same_modulo_deps(j, va)):
                         changed = True
                         j = _assign_sids(j)
